@@ -368,7 +368,7 @@ pub fn directed_forbid_cached(ctx: &Ctx, want: &str) -> Report {
         let mut rep = Report::new();
         let oct = octs[oi];
         let mut r = Rng::derive(ctx.seed, "quant.c07.directed", oct as u64);
-        let n_scales = if small { 2 } else { ctx.budget(2, 40, 400) };
+        let n_scales = if small { 2 } else { ctx.budget(2, 60, 1000) };
         for pc in 0..12u8 {
             if oct == 10 && pc > 0 {
                 break;
@@ -556,7 +556,7 @@ fn derived_noise(h: &History) -> Option<Violation> {
 }
 
 pub fn random(ctx: &Ctx, want: &str) -> Report {
-    let n_hist = ctx.budget(10, 6_000, 600_000) as usize;
+    let n_hist = ctx.budget(10, 40_000, 4_000_000) as usize;
     let shards = if ctx.tier == Tier::Small { 1 } else { 64 };
     par_shards(ctx, shards, |sh| {
         let mut rep = Report::new();
